@@ -479,6 +479,15 @@ def kw(ctx):
         ctx.check(any(isinstance(s, ast.Raise) and call_name(s.exc) == "TypeError" for s in last), c, "otherwise TypeError (unexpected keyword)", "an unexpected keyword is swallowed instead of raising TypeError")
         st = [a for a in c.orelse[0].body if isinstance(a, ast.Assign) and unparse(a) == "varkwargs[%s] = %s" % (name_var, dotted(lp.target.elts[1]))]
         ctx.check(bool(st), st[0] if st else c, "surplus keyword is stored under its own name")
+    # the variadic slots '*' / '**' are not names a keyword can bind: they must be filled AFTER the keyword loop (while the
+    # loop runs they are not in the mapping, so a keyword spelled "*" or "**" goes to the surplus keywords like any other)
+    g_kw = cfg_of(f)
+    slot_stores = [a for a in nodes_of_type(f, ast.Assign) if any(isinstance(t, ast.Subscript) and dotted(t.value) == "arg_dict" and const_value(t.slice) in ("*", "**") for t in a.targets)]
+    kw_writes = [a for a in nodes_of_type(f, ast.Assign) if in_block(a, lp.body) and any(isinstance(t, ast.Subscript) and dotted(t.value) == "arg_dict" for t in a.targets)]
+    for a in slot_stores:
+        ctx.check(not any(g_kw.path_exists(g_kw.nodes_of(a), g_kw.nodes_of(w)) for w in kw_writes), a, "the variadic slot is filled after the keywords were distributed",
+                  "`%s` is executed before the keyword loop: a keyword spelled like the slot (passed through **mapping) then finds it in the mapping and overwrites it, "
+                  "so two different calls share one canonical mapping" % unparse(a, 50))
     stores = [a for a in nodes_of_type(f, ast.Assign) if any(isinstance(t, ast.Subscript) and dotted(t.value) == "arg_dict" and const_value(t.slice) == "**" for t in a.targets)]
     ctx.check(bool(stores) and dotted(stores[0].value) == "varkwargs", stores[0] if stores else f, "arg_dict['**'] is the surplus-keyword mapping")
 
